@@ -718,6 +718,9 @@ func TestZZVerifReplay(t *testing.T) {
 			}()
 			f()
 		}()
+		if vrt.AllocExceeded() {
+			outcome = "alloc:exceeded (was " + outcome + ")"
+		}
 		for _, o := range vrt.ObsLog() {
 			fmt.Printf("VRT-OBS %%s %%s\n", path, strings.ReplaceAll(o, "\n", " "))
 		}
